@@ -37,6 +37,8 @@ import Rooc.Proofs.LinSucceed2
 import Rooc.Proofs.LinDExamples3
 import Rooc.Proofs.LinDExamples4
 import Rooc.Proofs.LinTrace2
+import Rooc.Proofs.LinBridgeStatic
+import Rooc.Proofs.LinDExamples5
 import Rooc.Proofs.LinSucceedPW3
 namespace Rooc.Props.C01
 open Rooc Rooc.Lin
@@ -667,8 +669,12 @@ STATIC contract on the source expressions — definedness is proved, not assumed
 * `GoodS d e` — the static contract on a source expression `e` over the domains `d`: every variable is declared
   with a usage mark; every literal is finite (`finiteLits`, syntactic); and at every assignment that satisfies
   `d` NO and/or NODE COLLAPSES TO A NON-0/1 VALUE (`NCon`: for every and/or node `n` of `e`, `simplify n` is
-  0/1-valued where defined).  The last clause is exactly what C10's singleton-collapse finding violates; it is
-  implied by `collapsesNonbinary (isBoolVar d) e = false` — the Lean port of the harness flag
+  0/1-valued where defined).  The last clause is exactly what the singleton collapse of `Exp::simplify` violates.
+  It is a hypothesis of the `linearizeWith`-level theorems only: `Linearizer::linearize` checks it up front on the
+  declared domains (`check_collapsing_logic_operands`, rooc 81a4b76 + e35561f; model `collapseCheckAll` on
+  `Compile.scratchState`), and the pipeline theorems (`c01_compile_logic_partial`, ...) DERIVE it from the
+  successful compilation (`ncon_of_compile`, `collapse_check_spec`), their contract being `StaticModel m` =
+  scope + finite literals.  It is also implied by `collapsesNonbinary (isBoolVar d) e = false` — the Lean port of the harness flag
   `nary-singleton-nonbinary` (`harness/src/props/c01.rs::collapses_nonbinary`) — see `no_collapse_check`, and by
   C10's stronger `LogicOperands01` on the domains (`LOon`, `noCollapse_of_logicOperands`), for which
   `operandsOK d e` is a syntactic check.
@@ -734,7 +740,8 @@ compilation proves every lowered side defined at every assignment (`linearize_ex
 `lower_assertion_defined`, `process_constraint_defined`, `compile_objective_defined`).
 
 `_partial`: the excluded region is (i) models with an and/or node that collapses to a non-0/1 value on the
-domains (`c01_logic_counterexample`: C10's known finding, flag `nary-singleton-nonbinary`), (ii) non-finite
+domains (`c01_logic_counterexample`; `linearizeWith` alone does not check, the pipeline does since rooc 81a4b76 +
+e35561f and rejects the counterexample: `c01_collapse_regression`), (ii) non-finite
 literals (`c01_defined_counterexample`).  Three places where rooc discarded a sub-expression without lowering it
 were found with these theorems and are repaired (5a25b35, 46b0121, ba14904: `c01_zero_factor_regression`,
 `c01_pruned_operand_regression`, `c01_verdict_regression`).  `DomRel`/`BoxEnforced` as in `c01_partial`; they
@@ -747,14 +754,46 @@ theorem c01_logic_partial {m : Model (Ext K)} {b : BoundsMap (Ext K)} {d : List 
   logic_feasible_iff hm hdom hbox h ρ
 
 /-- **C01 for the whole pipeline `Compile.linearize`, models with logic**: every tolerance `0 ≤ t < 1` (or any
-`t ≥ 0` without `IntegerRange` variables), every step limit; no hypothesis on computed data. -/
+`t ≥ 0` without `IntegerRange` variables), every step limit; no hypothesis on computed data.  THE CONTRACT IS
+`StaticModel m`: every side mentions declared used variables only and has finite literals — nothing semantic.
+(The clause "no and/or node collapses to a non-0/1 value" that `c01_logic_partial` needs is established by the
+up-front collapse check of `Linearizer::linearize`, rooc 81a4b76 + e35561f: `ncon_of_compile`.)  `_partial`: the
+excluded region is non-finite literals (`c01_defined_counterexample`) and tolerances `t ≥ 1` with integer
+variables (`c01_tolerance_counterexample`). -/
 theorem c01_compile_logic_partial {m : Model (Ext K)} {t : K} (ht : 0 ≤ t) {maxSteps : Nat} {lm : LinModel (Ext K)}
     (h : Compile.linearize m (.fin t) maxSteps = .ok lm)
-    (hm : LogicModel m m.domain) (hsh : AssertShape m) (hok : DeclOK m.domain)
+    (hm : StaticModel m) (hsh : AssertShape m) (hok : DeclOK m.domain)
     (ht1 : t < 1 ∨ NoIntVars m.domain) (ρ : String → K) :
     srcFeasible m ρ = true ↔
       ∃ ρ' : String → K, (∀ x, inScope m.domain x → ρ' x = ρ x) ∧ linFeasible lm ρ' = true :=
-  compile_feasible_iff_logic ht h hm hsh hok ht1 ρ
+  compile_feasible_iff_static ht h hm hsh hok ht1 ρ
+
+/-- **`check_collapsing_logic_operands`** (rooc 81a4b76): from a state satisfying the loop invariant, a successful
+check is a sound and complete step (every solution of the old state extends, on new auxiliaries only, to a
+solution of the new one, and every solution of the new one is one of the old) after which, at every solution, no
+and/or node of the checked expression collapses to a non-0/1 value. -/
+theorem collapse_check_spec {d0 : List (DomVar (Ext K))} (e : Exp (Ext K)) (s s' : St (Ext K))
+    (hinv : LoopInvD d0 s) (hsc : ∀ x ∈ varsOf e, inScope s.domain x) (hfin : FinE e)
+    (h : collapseCheck e s = .ok ((), s')) :
+    LoopInvD d0 s' ∧ StepOK s s' (fun _ => True) ∧ ∀ ρ : String → K, Sat ρ s' → NC ρ e := by
+  have C := collapseCheck_spec e s s' hinv hsc hfin h
+  exact ⟨C.inv, C.step, C.ok⟩
+
+/-- **`NCon` follows from "compile succeeds"** (`ncon_of_compile_ok`): when `Compile.linearize` succeeds on a
+well-scoped model with finite literals and well-formed declarations, then at EVERY assignment of the declared
+domains no and/or node of the objective or of a constraint side collapses to a non-0/1 value — the up-front check
+of rooc e35561f runs on the declared domains with the declared boxes, which enclose every such assignment. -/
+theorem ncon_of_compile {m : Model (Ext K)} {tol : Ext K} {maxSteps : Nat} {lm : LinModel (Ext K)}
+    (h : Compile.linearize m tol maxSteps = .ok lm) (hm : StaticModel m) (hok : DeclOK m.domain) :
+    NCon m.domain m.objective ∧
+    ∀ c ∈ m.constraints, NCon m.domain c.lhs ∧ (c.isAssert = false → NCon m.domain c.rhs) :=
+  ncon_of_compile_ok h hm hok
+
+/-- a model that compiles under the static contract satisfies the contract of the `linearizeWith` theorems. -/
+theorem logicModel_of_compile_ok {m : Model (Ext K)} {tol : Ext K} {maxSteps : Nat} {lm : LinModel (Ext K)}
+    (h : Compile.linearize m tol maxSteps = .ok lm) (hm : StaticModel m) (hsh : AssertShape m)
+    (hok : DeclOK m.domain) : LogicModel m m.domain :=
+  logicModel_of_compile h hm hsh hok
 
 /-- a decidable sufficient condition for C10's `LogicOperands01` on the domains. -/
 theorem logic_operands_check {d : List (DomVar (Ext K))} (hnd : (d.map (·.name)).Nodup) {e : Exp (Ext K)}
@@ -835,10 +874,10 @@ theorem linearizeWith_objective_defined {m : Model (Ext K)} {b : BoundsMap (Ext 
 /-- the whole pipeline: the objective has a value at every source-feasible assignment. -/
 theorem compile_objective_defined {m : Model (Ext K)} {t : K} (ht : 0 ≤ t) {maxSteps : Nat} {lm : LinModel (Ext K)}
     (h : Compile.linearize m (.fin t) maxSteps = .ok lm)
-    (hm : LogicModel m m.domain) (hsh : AssertShape m) (hok : DeclOK m.domain)
+    (hm : StaticModel m) (hsh : AssertShape m) (hok : DeclOK m.domain)
     (ht1 : t < 1 ∨ NoIntVars m.domain) (ρ : String → K) (hs : srcFeasible m ρ = true) :
     ∃ v, eval ρ m.objective = some v :=
-  compile_obj_defined ht h hm hsh hok ht1 ρ hs
+  compile_obj_defined ht h (logicModel_of_compile h hm hsh hok) hsh hok ht1 ρ hs
 
 /-- **the work-list loses nothing**: when `linearizeWith` succeeds, every source constraint went through one
 successful loop iteration (no lowering function removes or reorders a queued constraint: `QExt`, proved for
@@ -861,10 +900,11 @@ tolerance and step limit, with no hypothesis besides the static contract: the ob
 constraint of a model that compiles has a value at every assignment that satisfies the declarations.  (What the
 three repairs 5a25b35 / 46b0121 / ba14904 bought: an accepted model cannot contain an expression without a value.) -/
 theorem c01_compile_defined {m : Model (Ext K)} {tol : Ext K} {maxSteps : Nat} {lm : LinModel (Ext K)}
-    (h : Compile.linearize m tol maxSteps = .ok lm) (hm : LogicModel m m.domain) :
+    (h : Compile.linearize m tol maxSteps = .ok lm) (hm : StaticModel m) (hsh : AssertShape m)
+    (hok : DeclOK m.domain) :
     DefOn m.domain m.objective ∧
     ∀ c ∈ m.constraints, DefOn m.domain c.lhs ∧ (c.isAssert = false → DefOn m.domain c.rhs) :=
-  compile_sides_defined h hm
+  compile_sides_defined_static h hm hsh hok
 
 /-- the piecewise-linear fragment is a special case. -/
 theorem logicModel_of_fragModel {m : Model (Ext K)} {d : List (DomVar (Ext K))} (h : FragModel true m d) :
@@ -879,15 +919,16 @@ example : ∃ (m : Model (Ext K)) (b : BoundsMap (Ext K)) (d : List (DomVar (Ext
 
 /-- non-vacuity through the whole pipeline (every tolerance, step limit 0). -/
 example (t : K) : ∃ (m : Model (Ext K)) (lm : LinModel (Ext K)),
-    Compile.linearize m (.fin t) 0 = .ok lm ∧ LogicModel m m.domain ∧ AssertShape m ∧ DeclOK m.domain ∧
+    Compile.linearize m (.fin t) 0 = .ok lm ∧ StaticModel m ∧ AssertShape m ∧ DeclOK m.domain ∧
       NoIntVars m.domain := by
   obtain ⟨lm, h⟩ := exOr_compile (K := K) (.fin t)
-  exact ⟨exOr, lm, h, exOr_logicModel, exOr_assertShape, exOr_declOK, exOr_noInt⟩
+  exact ⟨exOr, lm, h, StaticModel.ofLogic exOr_logicModel, exOr_assertShape, exOr_declOK, exOr_noInt⟩
 
-/-- **Counterexample for the excluded region** (the and/or clause `NCon` of the contract dropped — C10's known
-finding seen from C01): `min x s.t. c: (x and 1) = 3`, `x ∈ Real(0, 4)`.  `simplify` drops the operand `1`, what
-is left is the non-Boolean `x`, and the row is `x = 3`: the linear model has the feasible point `x = 3`, the
-source model has none (`x and 1` is 0 or 1).  Every other hypothesis of `c01_logic_partial` holds. -/
+/-- **Counterexample for the excluded region of `c01_logic_partial`** (the and/or clause `NCon` of the contract
+dropped, at the level of `linearizeWith`, which does not run the collapse check): `min x s.t. c: (x and 1) = 3`,
+`x ∈ Real(0, 4)`.  `simplify` drops the operand `1`, what is left is the non-Boolean `x`, and the row is `x = 3`:
+the linear model has the feasible point `x = 3`, the source model has none (`x and 1` is 0 or 1).  Every other
+hypothesis of `c01_logic_partial` holds.  The PIPELINE rejects this model: `c01_collapse_regression`. -/
 theorem c01_logic_counterexample :
     ∃ (m : Model (Ext K)) (b : BoundsMap (Ext K)) (d : List (DomVar (Ext K))) (lm : LinModel (Ext K))
       (ρ : String → K),
@@ -897,6 +938,13 @@ theorem c01_logic_counterexample :
       GoodE d m.objective ∧
       linFeasible lm ρ = true ∧ ∀ ρ' : String → K, ¬ srcFeasible m ρ' = true :=
   lo_needed
+
+/-- **Regression for the singleton collapse** (findings C01-nary-singleton-nonbinary*, repaired by rooc 81a4b76 +
+e35561f): the model of `c01_logic_counterexample` is rejected by `Compile.linearize` with
+`NonBinaryLogicOperand`, at every tolerance and every step limit. -/
+theorem c01_collapse_regression (tol : Ext K) (maxSteps : Nat) :
+    Compile.linearize (exAndOne : Model (Ext K)) tol maxSteps = .error .nonBinaryLogicOperand :=
+  exAndOne_compile_rejected tol maxSteps
 
 end StageD
 
@@ -967,12 +1015,14 @@ theorem normalize_succeeds {e : Exp (Ext K)} (h : L1 (simplify e)) (hsz : fsize 
     ∃ e', normalizeExp e = some e' ∧ L1 e' ∧ fsize e' ≤ fsize (simplify e) := normalize_L1 h hsz
 
 /-- **no spurious error**: a model whose objective and constraints are supported affine expressions compiles —
-through the whole pipeline, for every tolerance and every step limit, whatever the declared domains. -/
+through the whole pipeline, for every tolerance and every step limit, whatever the declared domains.
+(`fragCheck m`: no logic node as written, so the up-front collapse check of rooc e35561f has nothing to do.) -/
 theorem c01_affine_compile_succeeds {m : Model (Ext K)} (tol : Ext K) (maxSteps : Nat)
+    (hscr : fragCheck m = true)
     (hobj : L1 (simplify m.objective)) (hobjsz : fsize (simplify m.objective) ≤ flattenFuel)
     (hcons : ∀ c ∈ m.constraints, SrcL c) (hlen : m.constraints.length < drainFuel) :
     ∃ lm, Compile.linearize m tol maxSteps = .ok lm :=
-  compile_succeeds tol maxSteps hobj hobjsz hcons hlen
+  compile_succeeds tol maxSteps (scratchOK_of_fragCheck tol maxSteps hscr) hobj hobjsz hcons hlen
 
 /-- the same for `linearizeWith` with any bounds map and any domain. -/
 theorem c01_affine_linearizeWith_succeeds {m : Model (Ext K)} (b : BoundsMap (Ext K)) (d : List (DomVar (Ext K)))
@@ -1068,13 +1118,14 @@ theorem c01_piecewise_linearizeWith_succeeds {m : Model (Ext K)} (b : BoundsMap 
 /-- **the same through the whole pipeline `Compile.linearize`**, the fragment being taken relative to the bounds
 of the analyzer state `an` the pipeline computes (any tolerance, any step limit). -/
 theorem c01_piecewise_compile_succeeds {m : Model (Ext K)} {tol : Ext K} {maxSteps : Nat} {an : Analyzer (Ext K)}
+    (hscr : fragCheck m = true)
     (han : pipelineAnalyzer m tol maxSteps = some an) {W : Nat} (hW : 1 ≤ W) (hB : budget W ≤ flattenFuel)
     (hnames : ∀ dv ∈ m.domain, SrcName dv.name)
     (hobj : ∃ o, normalizeExp m.objective = some o ∧ PW (Compile.toLinBounds an.variableBounds) o (objReq m) ∧ wt o ≤ W)
     (hcons : ∀ c ∈ m.constraints, SrcPW (Compile.toLinBounds an.variableBounds) W c)
     (hfuel : 4 * W * (m.constraints.length + 1) + 1 ≤ drainFuel) :
     ∃ lm, Compile.linearize m tol maxSteps = .ok lm :=
-  compile_succeeds_pw han hW hB hnames hobj hcons hfuel
+  compile_succeeds_pw (scratchOK_of_fragCheck tol maxSteps hscr) han hW hB hnames hobj hcons hfuel
 
 /-- non-vacuity: `min y s.t. |x| ≤ y`, `x ∈ [−1, 2]` satisfies every hypothesis of
 `c01_piecewise_linearizeWith_succeeds` (with `W = 4`), so it compiles BY THE THEOREM. -/
